@@ -37,6 +37,12 @@ CLAIMED = {
  "C20": ("CFG post-dominance/ordering and per-iteration-cell analysis of the executor (G7, G5, G3)",
          "Static decision of the synchronisation clauses ONLY: Execute returns only after every invocation returned (Add before each spawn, Done after work on every path of the child, Wait on every path to return), each child calls work exactly once with the two values computed for its own iteration, one spawn per iteration; callers size result channels by the value they pass as the worker limit. NOT decided: the range arithmetic (disjoint contiguous cover of [0,n), at most min(n,m) invocations, no empty/out-of-bounds range) - it quantifies over integer values of n and m and needs enumeration or a solver, both outside this technique family; a remainder-distribution bug is not detected.",
          "4 C20, 3.6 G7"),
+ "C03": ("Fiat-Shamir schedule extraction vs frozen spec table, layout extraction, commutativity of fan-in combiners, write-effect immutability (F1,F2,F4,F7,D5,G2-G4,W2,W3)",
+         "Static decision that labels, absorb order and loop structure equal the specification for prover and verifier, that openings are absorbed with their own index, that canonical encodings are what is hashed and serialised in the order D|L|R|a, that every merge in goroutine-completion order uses a commutative-associative combiner and takes each worker result exactly once, and that no call writes state a later call reads. Byte-for-byte equality with an independent implementation on concrete inputs and independence from the MSM window choice (group-law correctness) are not decided.",
+         "4 C03, 3.2, 3.3 D5, 3.6 G4"),
+ "C09": ("aligned-pair dataflow at call sites, dispatch/constant evaluation, chunk-coverage enumeration over constant-trip loops and the split branches, guarded-decrement dominance, length-guard dominance, loop-progress idiom, goroutine discipline, write effects (M1-M5, LG, T1, G1-G5, W1)",
+         "Static decision, for every size, task count and schedule, that points/scalars stay paired through all wrappers/splits/chunks, flags reach the inner routine, every selectable width has an implementation with consistent constants, every chunk is processed and consumed exactly once (chunk j via channel j), v-1 indexes are guarded, length mismatch errors before slicing, the sizing loop makes progress, goroutines are joined and channels fit (so the call cannot block on its own channels). That bucket accumulation/reduction and digit recoding compute sum s_i P_i is not decided.",
+         "4 C09, 3.4, 3.6"),
 }
 NA_REASON = "check under construction (DESIGN.md 9.5 build order); no verdict claimed yet"
 
